@@ -2,11 +2,16 @@
 package main
 
 import (
+	"bytes"
 	"flag"
 	"fmt"
+	"io"
 	"os"
+	"os/exec"
+	"regexp"
 	"runtime/pprof"
 	"strconv"
+	"strings"
 
 	"verif/internal/ev"
 	"verif/props"
@@ -62,6 +67,14 @@ func main() {
 		pprof.StopCPUProfile()
 		os.Exit(code)
 	}
+	// The check itself runs in a supervised copy of this process. The harness feeds the library
+	// values and call sequences a correct library handles; if the run dies (a panic in a library
+	// goroutine, a fatal runtime error, or the harness tripping over what the library handed back)
+	// the supervisor turns the death into a verdict with the stack as witness instead of
+	// leaving a broken check behind.
+	if os.Getenv("VCHECK_SUPERVISED") == "" && *replay == "" {
+		os.Exit(supervise(e.ID, cfg))
+	}
 	var rf *ev.ReplayFile
 	if *replay != "" {
 		var err error
@@ -72,10 +85,76 @@ func main() {
 		}
 		cfg.Tier, cfg.Seed = rf.Tier, rf.Seed
 	}
+	if os.Getenv("VCHECK_SELFTEST_PANIC") != "" && *replay == "" {
+		go func() { panic("selftest: a goroutine of the check died") }()
+		select {}
+	}
 	run := ev.New(e.ID, cfg.Tier, cfg.Seed, e.Level, e.Rule)
 	if rf != nil {
 		run.SetReplaying(rf)
 	}
 	e.Run(run, cfg)
 	os.Exit(run.Finish())
+}
+
+type tail struct {
+	buf bytes.Buffer
+	max int
+}
+
+func (t *tail) Write(p []byte) (int, error) {
+	t.buf.Write(p)
+	if t.buf.Len() > 2*t.max {
+		b := t.buf.Bytes()
+		keep := append([]byte(nil), b[len(b)-t.max:]...)
+		t.buf.Reset()
+		t.buf.Write(keep)
+	}
+	return len(p), nil
+}
+
+var frameRe = regexp.MustCompile(`(?m)^(perun\.network/go-perun/[^\s(]+|verif/[^\s(]+)`)
+
+func supervise(id string, cfg props.Cfg) int {
+	cmd := exec.Command(cfg.Self, os.Args[1:]...)
+	cmd.Env = append(os.Environ(), "VCHECK_SUPERVISED=1")
+	cmd.Stdout = os.Stdout
+	t := &tail{max: 1 << 16}
+	cmd.Stderr = io.MultiWriter(os.Stderr, t)
+	err := cmd.Run()
+	if err == nil {
+		return 0
+	}
+	code := -1
+	if ee, ok := err.(*exec.ExitError); ok {
+		code = ee.ExitCode()
+	}
+	if code == 1 || code == 3 {
+		return code
+	}
+	stderr := t.buf.String()
+	i := strings.Index(stderr, "panic:")
+	if j := strings.Index(stderr, "fatal error:"); j >= 0 && (i < 0 || j < i) {
+		i = j
+	}
+	if i < 0 {
+		return code // not a crash of the Go program (build problems, usage errors, signals from outside)
+	}
+	crash := stderr[i:]
+	line := crash
+	if k := strings.IndexByte(line, '\n'); k > 0 {
+		line = line[:k]
+	}
+	site := "unknown"
+	if m := frameRe.FindString(crash); m != "" {
+		site = strings.TrimPrefix(m, "perun.network/go-perun/")
+	}
+	if len(crash) > 12000 {
+		crash = crash[:12000]
+	}
+	run := ev.New(id, cfg.Tier, cfg.Seed, "exploration", "the check's process died while exercising the library; the crash is the observation")
+	run.Case("check-process-started", true)
+	run.Case("check-process-died", true)
+	run.Violation(id+"/check-process-died/"+site, "the check's process died while exercising the library: "+line, map[string]any{"stderr": crash})
+	return run.Finish()
 }
